@@ -49,6 +49,12 @@ def execute(pid, chk, overrides=None):
             _ip.REF_SIGNATURES = json.load(fh)
     except Exception:
         _ip.REF_SIGNATURES = {}
+    try:
+        with open(os.path.join(os.path.dirname(os.path.dirname(os.path.abspath(__file__))),
+                               "raise_sites.json")) as fh:
+            _ip.REF_RAISES = json.load(fh)
+    except Exception:
+        _ip.REF_RAISES = None
     # a host-vector layout whose index expressions were not decoded makes every column
     # classification a guess: nothing derived from it is a verdict
     # (only when a documented column family is left without an index attribute: an extra class
